@@ -68,6 +68,9 @@ def search(ctx, N):
     for k in range(N):
         L = float(rng.normal() * 10.0 ** rng.integers(-10, 11))
         a = float(rng.normal() * 10.0 ** rng.integers(-10, 11))
+        if k % 5 == 3:      # the whole sequence of tiny or huge magnitude (differences far below eps in absolute terms, not relatively)
+            sc = 10.0 ** float(rng.choice([-60, -30, -18, -15, 15, 30]))
+            L, a = float(rng.normal()) * sc * float(rng.choice([0.0, 1.0])), float(rng.normal() or 1.0) * sc
         q = float(rng.uniform(-50, 50))
         if abs(q) < 0.05 or abs(q - 1) < 0.05 or a == 0:
             continue
